@@ -246,6 +246,8 @@ where
         if let Some(&next_encoding) = self.next_encoding.get()
             && next_encoding != self.encoding
         {
+            #[cfg(feature = "_verif_hooks")]
+            crate::verif::hit(8);
             self.encoding = next_encoding;
             self.text_decoder.set_encoding(next_encoding);
             self.delegate.output_sink.set_encoding(next_encoding);
@@ -385,6 +387,10 @@ where
         // emits no hint of its own) would inherit the stale flag and skip selector
         // matching entirely.
         self.got_flags_from_hint = matches!(directive, ParserDirective::Lex);
+        #[cfg(feature = "_verif_hooks")]
+        if !self.got_flags_from_hint {
+            crate::verif::hit(9);
+        }
         directive
     }
 
@@ -423,6 +429,8 @@ where
             .unwrap_or_default();
 
         if !output.is_empty() {
+            #[cfg(feature = "_verif_hooks")]
+            crate::verif::hit(6);
             self.delegate.output_sink.handle_chunk(output);
         }
 
@@ -436,6 +444,8 @@ where
     ///
     /// [`flush_for_bail_out()`]: Self::flush_for_bail_out
     pub fn run_bail_out_handlers(&mut self, error: &RewritingError) {
+        #[cfg(feature = "_verif_hooks")]
+        crate::verif::hit(7);
         let mut bail_out = BailOut::new(&mut self.delegate.output_sink, self.encoding.get());
         self.delegate
             .transform_controller
@@ -476,6 +486,18 @@ where
         self.try_produce_token_from_lexeme(lexeme)?;
         self.delegate.emission_enabled = self.delegate.transform_controller.should_emit_content();
 
+        #[cfg(feature = "_verif_hooks")]
+        if matches!(
+            self.get_next_parser_directive(),
+            ParserDirective::WherePossibleScanForTagsOnly
+        ) {
+            crate::verif::hit(5);
+        }
+        #[cfg(feature = "_verif_hooks")]
+        if !self.delegate.emission_enabled {
+            crate::verif::hit(11);
+        }
+
         Ok(self.get_next_parser_directive())
     }
 
@@ -509,6 +531,8 @@ where
                 Ok(self.apply_capture_flags_from_hint_and_get_next_parser_directive(flags))
             }
             Err(DispatcherError::InfoRequest(aux_info_req)) => {
+                #[cfg(feature = "_verif_hooks")]
+                crate::verif::hit(10);
                 self.got_flags_from_hint = false;
                 self.pending_element_aux_info_req = Some(aux_info_req);
 
